@@ -183,6 +183,14 @@ sym:
 		if b.IsConst() && b.Val.Sign() == 0 {
 			return a
 		}
+		if op == "bvor" {
+			if a.IsConst() && a.Val.Cmp(mask(w)) == 0 {
+				return a
+			}
+			if b.IsConst() && b.Val.Cmp(mask(w)) == 0 {
+				return b
+			}
+		}
 	case "bvsub", "bvshl", "bvlshr":
 		if b.IsConst() && b.Val.Sign() == 0 {
 			return a
@@ -193,6 +201,12 @@ sym:
 		}
 		if b.IsConst() && b.Val.Sign() == 0 {
 			return b
+		}
+		if a.IsConst() && a.Val.Cmp(mask(w)) == 0 {
+			return b
+		}
+		if b.IsConst() && b.Val.Cmp(mask(w)) == 0 {
+			return a
 		}
 	}
 	return mk(op, w, a, b)
@@ -315,6 +329,10 @@ func Extract(hi, lo int, a *Term) *Term {
 	}
 	if a.IsConst() {
 		return BVConst(hi-lo+1, new(big.Int).Rsh(a.Val, uint(lo)))
+	}
+	// bit-wise operations with a constant: extract both sides (x|1 has a constant low bit)
+	if (a.Op == "bvor" || a.Op == "bvand") && (a.Args[0].IsConst() || a.Args[1].IsConst()) {
+		return BVBin(a.Op, Extract(hi, lo, a.Args[0]), Extract(hi, lo, a.Args[1]))
 	}
 	return mkP("extract", hi-lo+1, []int{hi, lo}, a)
 }
